@@ -203,7 +203,13 @@ def eof_case(replay, tail, back, where, shape, crlf=False):
 # (name, lines of the importing file after the prefix, acceptable 0-based offsets among those lines)
 IMPORT_DUPS = [("duplicate_import_vs_import", ["from shapes use area", "from other use area"], [0, 1]), ("duplicate_import_vs_definition", ["area :: 5", "", "from shapes use area"], [0, 2]),
                ("duplicate_definition_vs_import", ["from shapes use area", "", "area :: 5"], [0, 2]), ("duplicate_import_vs_namespace", ["use shapes", "from other use area as shapes"], [0, 1]),
-               ("duplicate_renamed_imports", ["from shapes use area as ar", "from other use side as ar"], [0, 1])]
+               ("duplicate_renamed_imports", ["from shapes use area as ar", "from other use side as ar"], [0, 1]),
+               # an import list spread over several lines: the error is at the line of the offending NAME, not at the head of the list
+               ("unresolved_name_in_a_multi_line_import_list", ["from shapes use (", "    area,", "    side,", "    nope,", ")"], [3]),
+               ("unresolved_renamed_name_in_a_multi_line_import_list", ["from shapes use (", "    area,", "    nope as known,", "    side,", ")"], [2]),
+               ("duplicate_in_a_multi_line_import_list_vs_definition", ["from shapes use (", "    area,", "    side,", ")", "side :: 5"], [2, 4]),
+               ("duplicate_alias_in_a_multi_line_import_list_vs_definition", ["ar :: 5", "from shapes use (", "    side,", "    area as ar,", ")"], [0, 3]),
+               ("duplicate_within_one_multi_line_import_list", ["from shapes use (", "    area,", "    side as area,", ")"], [1, 2])]
 
 
 def import_dup_case(replay, body, acc, where, shape, crlf=False):
